@@ -1966,3 +1966,40 @@ func (c *Ctx) rulesR3flush() {
 		c.undecided(fmt.Sprintf("C06.flushed: only %d close-while-ranging sites over slice-typed binding indexes", n))
 	}
 }
+
+func (c *Ctx) rulesR3nilfield() {
+	c.rule("C18.nilslot", "newHandlerCallStruct does not take an empty handler FIELD for a handler: the value found by FieldByName is tested with IsNil before it is cached or called (pipes.BindConnected and user bindings leave optional slots nil; calling one panics, cancels the source transition and raises Exception on the source — piping must never do that)")
+	f := c.fnOpt(pm + ":newHandlerCallStruct")
+	if f == nil {
+		c.undecided("C18.nilslot: newHandlerCallStruct not found")
+		return
+	}
+	var fb []*ssa.Call
+	for _, s := range c.sitesIn(f, "method:FieldByName") {
+		if call, ok := s.(*ssa.Call); ok {
+			fb = append(fb, call)
+		}
+	}
+	if len(fb) == 0 {
+		c.ok("C18.nilslot", "newHandlerCallStruct does not support field handlers", f.Pos(), "no FieldByName lookup")
+		return
+	}
+	tested := false
+	for _, s := range c.sitesIn(f, "method:IsNil") {
+		args := s.Common().Args
+		if len(args) == 0 {
+			continue
+		}
+		if derives(args[0], func(x ssa.Value) bool {
+			for _, call := range fb {
+				if x == ssa.Value(call) {
+					return true
+				}
+			}
+			return false
+		}) {
+			tested = true
+		}
+	}
+	c.check(tested, "C18.nilslot", "newHandlerCallStruct rejects nil handler fields", fb[0].Pos(), "the FieldByName result is used without an IsNil test")
+}
